@@ -363,7 +363,7 @@ def run_mut(ctx, quick, pr):
             elif c[0] == "P":
                 a = st[slot]
                 i, shep = c[2], c[3]
-                exp = list(a["own"])
+                exp = list(a["expect"] if a.get("expect") is not None else a["own"])
                 if i <= a["count"]:
                     if a["kind"] == K_ALL:
                         exp = [shep] * a["sc"]
@@ -374,12 +374,13 @@ def run_mut(ctx, quick, pr):
                     nontrivial += 1
             elif c[0] == "L":
                 r, m = st[c[1]], st[c[2]]
-                exp = list(m["own"])
+                rown = r["expect"] if r.get("expect") is not None else r["own"]
+                exp = list(m["expect"] if m.get("expect") is not None else m["own"])
                 okdims = r["count"] == m["count"] and r["us"] == m["us"]
                 if okdims and r["kind"] == K_ALL and m["kind"] in (K_ALL, K_DIST):
-                    exp = [r["own"][0]] * m["sc"]
+                    exp = [rown[0]] * m["sc"]
                 elif okdims and r["kind"] == K_DIST and m["kind"] == K_DIST and r["ss"] == m["ss"] and r["sb"] == m["sb"]:
-                    exp = list(r["own"])
+                    exp = list(rown)
                 m["expect"], m["why"] = exp, script[k]
                 if exp != m["own"]:
                     nontrivial += 1
